@@ -137,6 +137,10 @@ def cases(tier, seed):
             if solver == "ScipyIVP" and scen in CONTACT:
                 continue
             out.append({"scen": scen, "solver": solver, "N": N})
+    # systems whose initial time is negative: one split lands exactly on t = 0.0 (seeded C24-e: a restart time that is falsy)
+    for scen in ("chain", "rev_pd", "ball_plane"):
+        for solver in ("Rattle", "BackwardEuler"):
+            out.append({"scen": scen, "solver": solver, "N": N, "t0": -5 * DT})
     k = seed % len(out)
     return out[k:] + out[:k]
 
@@ -183,7 +187,8 @@ def check(case):
     scen, solver, N = case["scen"], case["solver"], case["N"]
     fails = []
     letters = {"scen": scen, "solver": solver}
-    ref_sys = build(scen, nsteps=N)
+    T0 = case.get("t0", 0.0)
+    ref_sys = build(scen, t0=T0, nsteps=N)
     ref = run(ref_sys, solver, N)
     t_ref, q_ref, u_ref = np.asarray(ref.t), np.asarray(ref.q), np.asarray(ref.u)
     if len(t_ref) != N + 1:
@@ -199,7 +204,7 @@ def check(case):
         evals += 1
         letters = {"scen": scen, "solver": solver, "variant": variant}
         if variant == "copy_after_first_leg":
-            s1 = build(scen, nsteps=N)
+            s1 = build(scen, t0=T0, nsteps=N)
             leg1 = run(s1, solver, k)
             qk, uk, tk = np.asarray(leg1.q)[-1], np.asarray(leg1.u)[-1], float(np.asarray(leg1.t)[-1])
             d1 = max(np.max(np.abs(qk - q_ref[k])), np.max(np.abs(uk - u_ref[k])))
@@ -211,6 +216,9 @@ def check(case):
             # internals - angle trackers, caches, contact bases - are those of the END of the run, not of the split state)
             s1 = ref_sys
             qk, uk, tk = q_ref[k].copy(), u_ref[k].copy(), float(t_ref[k])
+        if abs(tk) < 1e-12:
+            tk = 0.0  # the user restarts "at time zero"
+            outcomes.add("reinit:at_t_exactly_0")
         try:
             with quiet():
                 s2 = s1.deepcopy()
@@ -233,7 +241,7 @@ def check(case):
                           "data": dict(letters, k=k, exc=type(e).__name__)})
             continue
         # (b) model identity along the remaining states of the uninterrupted run
-        s0 = build(scen, nsteps=N)
+        s0 = build(scen, t0=T0, nsteps=N)
         with quiet():
             for j in range(0, k + 1):  # walk the original system to the split state (history-dependent trackers)
                 _model_eval(s0, t_ref[j], q_ref[j], u_ref[j])
@@ -259,6 +267,10 @@ def check(case):
             kk = key.split("[")[0]
             fails.append({"site": f"re-initialised copy describes a different model: {kk} differs", "msg": f"{letters} k={k}: max |{key} copy - original| = {d:.3e} along the remaining states",
                           "data": dict(letters, k=k, field=key, diff=d, rel_angle_at_split=rel_angle)})
+        # the copy reports the requested initial time
+        if not float(s2.t0) == tk:
+            fails.append({"site": "re-initialised copy does not report the requested t0", "msg": f"{letters} k={k}: requested t0={tk!r}, copy reports t0={float(s2.t0)!r}",
+                          "data": dict(letters, k=k, t0_requested=tk, t0_reported=float(s2.t0))})
         # (a) trajectory
         try:
             leg2 = run(s2, solver, N - k)
